@@ -185,7 +185,7 @@ var c10WinSyms = []struct{ name, text string }{
 	{"xff", "\xff"}, {"xe2", "\xe2"}, {"xe2x80", "\xe2\x80"}, {"xf0x9f", "\xf0\x9f"}, {"NUL", "\x00"},
 	{"NBSP", "\u00a0"}, {"NEL", "\u0085"}, {"LSEP", "\u2028"}, {"PSEP", "\u2029"}, {"IDEOSP", "\u3000"}, {"OGHAMSP", "\u1680"}, {"ENQUAD", "\u2000"}, {"NNBSP", "\u202f"},
 	{"BOM", "\ufeff"}, {"HYPHEN2010", "\u2010"}, {"ENDASH", "\u2013"}, {"EMDASH", "\u2014"}, {"COPYRIGHT-SIGN", "\u00a9"}, {"e-acute", "\u00e9"}, {"CJK", "\u4e16"}, {"EMOJI", "\U0001F600"},
-	{"LDQUO", "\u201c"}, {"U+0130", "\u0130"}, {"&amp;", "&amp;"}, {"&#8232;", "&#8232;"}, {"copyright", "copyright 2000 x"}, {"https", "https://a"},
+	{"LDQUO", "\u201c"}, {"U+FFFD", "\ufffd"}, {"U+0130", "\u0130"}, {"&amp;", "&amp;"}, {"&#8232;", "&#8232;"}, {"copyright", "copyright 2000 x"}, {"https", "https://a"},
 }
 
 func init() { vRegister("c10_window", c10Window) }
